@@ -222,6 +222,32 @@ func c08genRing(r *h.Rand) (ring []P, kind string) {
 	}
 }
 
+func boolF(b bool) float64 {
+	if b {
+		return 1
+	}
+	return 0
+}
+
+// c08comb: an outer ring with m triangular spikes through the top side of the returned box, plus small holes in its base.
+func c08comb(r *h.Rand) ([][]P, [4]float64) {
+	m := r.Range(5, 16)
+	w := float64(2 * m)
+	outer := []P{{0, 0}, {w, 0}, {w, 2}}
+	for i := m - 1; i >= 0; i-- {
+		x := float64(2 * i)
+		outer = append(outer, P{x + 1.5, 2}, P{x + 1, r.Uniform(5, 8)}, P{x + 0.5, 2})
+	}
+	outer = append(outer, P{0, 2}, P{0, 0})
+	rings := [][]P{outer}
+	for k := r.Range(1, 3); k > 0; k-- {
+		x := float64(r.Range(0, int(w)-2)) + 0.25*float64(k)
+		rings = append(rings, []P{{x, 0.5}, {x, 1.5}, {x + 0.5, 1.5}, {x + 0.5, 0.5}, {x, 0.5}})
+	}
+	box := [4]float64{-1 + r.Uniform(0, 2), -1, w + 1 - r.Uniform(0, 2), r.Uniform(3, 4.5)}
+	return rings, box
+}
+
 func walkVertices(g orb.Geometry, f func(orb.Point)) {
 	switch g := g.(type) {
 	case nil:
@@ -322,6 +348,27 @@ func init() {
 					ring, kind := c08genRing(r)
 					half := kind != "star" && kind != "arbitrary-float" || r.P(1, 3)
 					box := c08box(r, -1, 13, half)
+					if r.P(1, 4) {
+						// vertices a hair inside / outside a box side (1e-8 .. 1e-6): must be clipped like any other
+						ring = append([]P{}, ring...)
+						for k := r.Range(1, 3); k > 0; k-- {
+							i := r.Intn(len(ring) - 1)
+							eps := []float64{1e-6, 3e-7, 1e-7, 5e-8}[r.Intn(4)]
+							if r.Bool() {
+								eps = -eps
+							}
+							if r.Bool() {
+								ring[i][0] = box[r.Intn(2)*2] + eps
+							} else {
+								ring[i][1] = box[1+r.Intn(2)*2] + eps
+							}
+							if r.Bool() && i+1 < len(ring)-1 { // and its neighbour too: an edge running just beside the side
+								ring[i+1][0], ring[i+1][1] = ring[i][0]+r.Uniform(-1, 1)*boolF(ring[i][0] != box[0] && ring[i][0] != box[2]), ring[i][1]+r.Uniform(-1, 1)
+							}
+						}
+						ring[len(ring)-1] = ring[0]
+						kind += "+near-side"
+					}
 					c.Note([]byte(fmt.Sprintf("box=%v ring=%v", box, ring)))
 					out := c08ring(c, r, box, ring, c08queries(r, box, 30))
 					c.Count("ring_kind_"+kind, 1)
@@ -383,9 +430,19 @@ func init() {
 							box = nb
 						}
 					}
+					scale := 14.0
+					if r.P(1, 6) {
+						// a comb: the outer ring gains many vertices when clipped, holes follow it
+						rings, cb := c08comb(r)
+						var pg orb.Polygon
+						for _, rr := range rings {
+							pg = append(pg, pToRing(rr))
+						}
+						mp, model, box, scale = orb.MultiPolygon{pg}, [][][]P{rings}, cb, 40
+						c.Count("comb_polygons", 1)
+					}
 					b := boundOf(box[0], box[1], box[2], box[3])
 					c.Note([]byte(fmt.Sprintf("box=%v mp=%v", box, model)))
-					scale := 14.0
 					queries := c08queries(r, box, 40)
 					var expMP orb.MultiPolygon
 					for k, rings := range model {
